@@ -1707,6 +1707,15 @@ class InterInventoryTree(InterTree):
                 if specific_files is not None:
                     precise_file_ids.add(result.parent_id[1])
                     changed_file_ids.append(result.file_id)
+                    if result.kind[0] == "directory" and result.kind[1] != "directory":
+                        # This stopped being a directory, the old children have
+                        # to be included (as _handle_precise_ids does for the
+                        # entries it adds), or they would be left below
+                        # something that is not a directory.
+                        precise_file_ids.update(
+                            child.file_id
+                            for child in self.source.iter_child_entries(result.path[0])
+                        )
                 yield result
             # Ensure correct behaviour for reparented/added specific files.
             if specific_files is not None:
